@@ -1,9 +1,9 @@
 import Driver.Proto
-namespace Driver
+namespace Driver.C12
 open Scrapli
 
 /-- line-protocol handler for property C12 (arguments after the leading `c12` token) -/
 def handleC12 : List String → String
   | _ => "bad-op"
 
-end Driver
+end Driver.C12
